@@ -226,7 +226,7 @@ def string_or_enum_call_sites(task):
 
 
 def obligations(pid, tier):
-    maxlen = 24 if tier == "quick" else 30
+    maxlen = 24 if tier == "quick" else 36
     obs = [
         Obligation("parse_roundtrip", lambda parser, maxlen: parse_roundtrip(parser, maxlen),
                    cases=[dict(parser=p, maxlen=maxlen) for p in PARSERS], use_shims=False,
@@ -257,7 +257,7 @@ def meta(pid):
                   "evaluation/matching/object_matching.py"],
         "bounds": {"quick": "input string: every length 0..24 (longest member value: 22), code points 1..127 symbolic per "
                             "position; every member of every enum",
-                   "thorough": "lengths 0..30"},
+                   "thorough": "lengths 0..36"},
         "outside": ["non-ASCII strings and Unicode case folding", "strings longer than the bound (all member values are "
                     "shorter, so longer strings can only be non-members)"],
         "stand_ins": ["SymStr (str subclass, per-character z3 Int code points; lower/upper/==/in/hash modelled)"],
